@@ -10,6 +10,8 @@ from sa.guards import GuardView, atom_of, names_in
 from sa.index import own_nodes
 from sa.report import Ctx
 
+from .common import generic_sweeps
+
 from .sat_common import _enclosing_block
 
 EXPLANATION = (
@@ -111,6 +113,7 @@ def run(ctx: Ctx):
     rets = [n for n in own_nodes(un.node) if isinstance(n, ast.Return)]
     vals = sorted(ast.unparse(r.value) for r in rets)
     ctx.ob("C13-O3", "R29 EXACTLY-ONCE", un, "union returns False without merging when the roots coincide, True after a merge", vals == ["False", "True"], f"{vals}", node=un.node)
+    generic_sweeps(ctx)
 
 
 # ---------------------------------------------------------------------------------------------
